@@ -28,6 +28,7 @@
 #if MYTH_ECO_MODE
 #include "myth_eco.h"
 #endif
+#include "myth_verif.h"
 
 static void myth_sched_loop(void);
 
@@ -151,6 +152,9 @@ static void myth_setup_worker(int rank) {
   myth_set_current_env(env);
   //Initialize random seed
   myth_random_init(((unsigned)time(NULL)) + rank);
+#ifdef MYTH_VERIF
+  myth_random_init(MYTH_VERIF_SEED(rank, ((unsigned)time(NULL)) + rank));
+#endif
   //Initialize runqueue
   myth_queue_init(&env->runnable_q);
   myth_queue_clear(&env->runnable_q);
@@ -330,6 +334,7 @@ static inline void myth_startpoint_init_ex_body(int rank)
   //Allocate thread descriptor for current thread
 #if MYTH_SPLIT_STACK_DESC
   this_th = get_new_myth_thread_struct_desc(env);
+  MYTH_VERIF_DESC_ACQ(this_th, 0);
   this_th->stack=NULL;
 #else
   this_th = get_new_myth_thread_struct_desc(env);
@@ -413,6 +418,7 @@ static inline void myth_startpoint_exit_ex_body(int rank)
     intptr_t rank_ = rank;
     myth_thread_t th;
     th = env->this_thread;
+    MYTH_VERIF_COV(FINI_MIGRATE);
     myth_swap_context_withcall(&th->context, &env->sched.context, 
 			       myth_startpoint_exit_ex_1,
 			       (void*)th, (void*) rank_, NULL);
@@ -602,7 +608,9 @@ static void myth_sched_loop(void)
     first_run->env=env;
     //Switch to runnable thread
     myth_assert(first_run->status==MYTH_STATUS_READY);
+    MYTH_VERIF_SCHED(RUN, env->rank, first_run);
     myth_swap_context(&env->sched.context, &first_run->context);
+    MYTH_VERIF_SCHED(BACK, env->rank, 0);
   }
   env->this_thread=NULL;
 #if MYTH_ECO_MODE
@@ -626,6 +634,7 @@ static void myth_sched_loop(void)
     if (!next_run){
       //next_run=myth_steal_from_others(env);
       next_run=g_myth_steal_func(env->rank);
+      if (next_run) MYTH_VERIF_COV(SCHED_STEAL_OK);
     }
     if (next_run)
       {
@@ -638,7 +647,9 @@ static void myth_sched_loop(void)
 	myth_dprintf("myth_sched_loop:switching to thread:%p\n",next_run);
 #endif
 	myth_assert(next_run->status==MYTH_STATUS_READY);
+	MYTH_VERIF_SCHED(RUN, env->rank, next_run);
 	myth_swap_context(&env->sched.context, &next_run->context);
+	MYTH_VERIF_SCHED(BACK, env->rank, 0);
 #if MYTH_SCHED_LOOP_DEBUG
 	myth_dprintf("myth_sched_loop:returned from thread:%p\n",(void*)next_run);
 #endif
@@ -650,8 +661,10 @@ static void myth_sched_loop(void)
       __asm__ __volatile("pause;");
     }
 #endif
+    if (!next_run) MYTH_VERIF_SCHED(IDLE, env->rank, 0);
     //Check exit flag
     if (env->exit_flag==1){
+      MYTH_VERIF_EV(WORKER_EXIT, 0, env->rank);
       env->this_thread=NULL;
 #if MYTH_SCHED_LOOP_DEBUG
       myth_dprintf("env %p received exit signal,exiting\n",env);
